@@ -1,59 +1,56 @@
 //gosx:package langserver/check/common
 package common
 
-import "strings"
+import (
+	"os"
+	"strings"
+	"time"
+)
 
-// Environment model (symbolic run only; the native replay walks a real directory): the directory walk of
-// GetDirFileList - ioutil.ReadDir, one goroutine per directory, a channel of results - over the virtual
-// file system. The decisions the walk takes are the real ones: skipped .svn / .git directories, the ignore
-// predicates isIgnoreFloder / isIgnoreFile (only when ignoreFlag is set) and IsHandleAsLua, each applied to
-// the same strings the real walk builds (path of the directory with a trailing slash, resp. of the file,
-// relative to the directory the walk started from).
-func (d *DirManager) verifModelGetDirFileList(path string, ignoreFlag bool) (fileList []string) {
-	if path == "" {
-		return fileList
+// Environment model at the lowest level (symbolic run only): the entries of one directory, as ioutil.ReadDir
+// returns them (sorted by name), read from the virtual file system. With this model the whole directory walk
+// - getAllFile with its goroutines, the result channel, the semaphore and the ignore decisions - is the real
+// code.
+type verifFileInfo struct {
+	name string
+	dir  bool
+}
+
+func (f verifFileInfo) Name() string       { return f.name }
+func (f verifFileInfo) Size() int64        { return 0 }
+func (f verifFileInfo) ModTime() time.Time { return time.Time{} }
+func (f verifFileInfo) IsDir() bool        { return f.dir }
+func (f verifFileInfo) Sys() interface{}   { return nil }
+func (f verifFileInfo) Mode() os.FileMode {
+	if f.dir {
+		return os.ModeDir
 	}
-	g := GConfig
-	dirStr := path
-	top := path
+	return 0
+}
+
+func verifModelDirents(run *ParallelRun, dir string) []os.FileInfo {
+	run.Acquire()
+	defer run.Release()
+	top := dir
 	if !strings.HasSuffix(top, "/") {
 		top += "/"
 	}
-	for _, name := range verifVFSList() {
+	var out []os.FileInfo
+	last := ""
+	for _, name := range verifVFSList() { // sorted
 		if !strings.HasPrefix(name, top) {
 			continue
 		}
 		rest := name[len(top):]
-		skip := false
-		completeStr := top
-		for {
-			k := strings.Index(rest, "/")
-			if k < 0 {
-				break
-			}
-			dir := rest[:k]
-			rest = rest[k+1:]
-			if dir == ".svn" || dir == ".git" {
-				skip = true
-				break
-			}
-			completeStr += dir + "/"
-			if ignoreFlag && g.isIgnoreFloder(completeStr[len(dirStr)+1:]) {
-				skip = true
-				break
-			}
+		isDir := false
+		if k := strings.Index(rest, "/"); k >= 0 {
+			rest, isDir = rest[:k], true
 		}
-		if skip {
+		if rest == last {
 			continue
 		}
-		completeStr += rest
-		if !g.IsHandleAsLua(completeStr) {
-			continue
-		}
-		if ignoreFlag && g.isIgnoreFile(completeStr[len(dirStr)+1:]) {
-			continue
-		}
-		fileList = append(fileList, completeStr)
+		last = rest
+		out = append(out, verifFileInfo{name: rest, dir: isDir})
 	}
-	return fileList
+	return out
 }
